@@ -265,7 +265,9 @@ func innerPhase(r *core.Run, quick bool, bounds map[string]any) {
 	}
 
 	// quoted-string values; the offer carries the value in the same spelling
-	values := []string{`"x"`, `"x,y"`, `"x;y"`, `"x y"`, `""`, `"x\"y"`, `"x\\"`, `"x\",y"`, `"\\\""`, `"x\\\\y,z"`}
+	values := []string{`"x"`, `"x,y"`, `"x;y"`, `"x y"`, `""`, `"x\"y"`, `"x\\"`, `"x\",y"`, `"\\\""`, `"x\\\\y,z"`,
+		// quoted-pairs on characters that need no escaping (RFC 9110 allows escaping any VCHAR / SP / HTAB)
+		`"x\-y"`, `"x\yz,w"`, `"\a"`, `"x\ y"`}
 	qcomps := []elem{{"text/html", "", ""}, {"text/html", "", ";q=0.4"}, {"text/plain", ";level=1", ""}}
 	nQ := 0
 	for _, v := range values {
